@@ -27,7 +27,7 @@ import (
 type Case struct {
 	Template string `json:"template"`
 	Src      string `json:"src"`
-	Entry    string `json:"entry"`  // eval | execute | evalpath
+	Entry    string `json:"entry"`  // eval | execute | evalpath | preload (declarations loaded by an earlier EvalWithContext(context.Background()), main called by the cancellable one)
 	MaxG     int    `json:"max_g"`  // maximum number of interpreted goroutines alive at any time
 	Points   []int  `json:"points"` // cancellation points (operation numbers, 1-based)
 }
@@ -214,6 +214,9 @@ type session struct {
 	i     *interp.Interpreter
 	ops   atomic.Int64
 	ticks atomic.Int64
+	// armed: the cancellable evaluation has started (operations of the
+	// preload phase, which no cancellation can reach, are not counted)
+	armed atomic.Bool
 }
 
 func newSession(c *Case) *session {
@@ -223,6 +226,7 @@ func newSession(c *Case) *session {
 		opt.SourcecodeFilesystem = fstest.MapFS{"m/main.go": &fstest.MapFile{Data: []byte(c.Src)}}
 	}
 	s.i = interp.New(opt)
+	s.armed.Store(c.Entry != "preload")
 	if err := s.i.Use(stdlib.Symbols); err != nil {
 		panic(err)
 	}
@@ -252,6 +256,18 @@ func (s *session) start(ctx context.Context, c *Case) chan error {
 			res <- err
 		case "evalpath":
 			_, err := s.i.EvalPathWithContext(ctx, "m/main.go")
+			res <- err
+		case "preload":
+			// the declarations are loaded by an earlier evaluation whose context can
+			// not be cancelled; the cancellable evaluation only calls them
+			decl := strings.Replace(c.Src, "func main() {", "func Run() {", 1)
+			s.armed.Store(false)
+			if _, err := s.i.EvalWithContext(context.Background(), decl); err != nil {
+				res <- fmt.Errorf("preload: %w", err)
+				return
+			}
+			s.armed.Store(true)
+			_, err := s.i.EvalWithContext(ctx, "Run()")
 			res <- err
 		default:
 			_, err := s.i.EvalWithContext(ctx, c.Src)
@@ -283,7 +299,11 @@ func settle(f func() int64, quiet, limit time.Duration) int64 {
 // total runs the program uncancelled and returns the number of operations.
 func total(c *Case) (int, string) {
 	s := newSession(c)
-	s.i.VerifSetStepHook(func() { s.ops.Add(1) })
+	s.i.VerifSetStepHook(func() {
+		if s.armed.Load() {
+			s.ops.Add(1)
+		}
+	})
 	res := s.start(context.Background(), c)
 	last, at := int64(-1), time.Now()
 	for {
@@ -312,6 +332,9 @@ func cancelAt(c *Case, k int) (string, string, map[string]int) {
 	parked := make(chan struct{}, 1)
 	release := make(chan struct{})
 	s.i.VerifSetStepHook(func() {
+		if !s.armed.Load() {
+			return
+		}
 		if s.ops.Add(1) == int64(k) {
 			parked <- struct{}{}
 			<-release
@@ -415,7 +438,7 @@ func genCase(t *rapid.T, perCase int, skip map[string]bool) *Case {
 	tm := ts[rapid.IntRange(0, len(ts)-1).Draw(t, "template")]
 	c := &Case{Template: tm.name}
 	c.Src, c.MaxG = tm.gen(t)
-	c.Entry = []string{"eval", "execute", "evalpath"}[rapid.IntRange(0, 2).Draw(t, "entry")]
+	c.Entry = []string{"eval", "execute", "evalpath", "preload"}[rapid.IntRange(0, 3).Draw(t, "entry")]
 	if c.Entry == "execute" && skip["execute-precompiled-chan"] && (tm.name == "pipeline" || tm.name == "blocked-goroutines" || tm.name == "goroutine-workers") {
 		// known finding: channel operations compiled before ExecuteWithContext are not cancellable
 		c.Entry = "eval"
@@ -501,7 +524,7 @@ func init() {
 	vf.Register(&vf.Check{
 		ID:    "C09",
 		Level: "fault_enumeration",
-		Rule: "case = a program from a template family (busy loop, nested calls, recursion, closure ping-pong, goroutine workers with WaitGroup, channel pipeline with range/close, goroutines parked in each blocking construct {recv, send, select recv/send, range, recv-ok}, package initialisers + init + main) x entry point {EvalWithContext, ExecuteWithContext, EvalPathWithContext} x cancellation points k chosen among the N operations of an uncancelled run; the step hook parks the goroutine about to execute operation k, the harness cancels, waits for the call to return, releases, and checks: the call returns context.Canceled, at most one host side effect per interpreted goroutine happens after the return, interpreted operations stop, goroutines exit; non-trivial = k falls in a program with callee frames, several goroutines or package initialisation; distinct by (program, entry, k)",
+		Rule:  "case = a program from a template family (busy loop, nested calls, recursion, closure ping-pong, goroutine workers with WaitGroup, channel pipeline with range/close, goroutines parked in each blocking construct {recv, send, select recv/send, range, recv-ok}, package initialisers + init + main) x entry point {EvalWithContext, ExecuteWithContext, EvalPathWithContext} x cancellation points k chosen among the N operations of an uncancelled run; the step hook parks the goroutine about to execute operation k, the harness cancels, waits for the call to return, releases, and checks: the call returns context.Canceled, at most one host side effect per interpreted goroutine happens after the return, interpreted operations stop, goroutines exit; non-trivial = k falls in a program with callee frames, several goroutines or package initialisation; distinct by (program, entry, k)",
 		Assumptions: []string{
 			"YAEGI_FAST_CHAN is unset (cancellable channel mode)",
 			"the operation count of goroutine programs is schedule-dependent: a point beyond the end of a run is counted, not judged",
